@@ -1,5 +1,5 @@
 Require Extraction.
 Require Import ExtrOcamlBasic.
-From SCMO Require Import Lib.Val Model.C12.
-Definition run := run_C12.
+From SCMO Require Import Lib.Val Model.C12 Model.C12x.
+Definition run := run_C12x.
 Extraction "c12_model.ml" run.
